@@ -297,19 +297,18 @@ def run(chk):
                 "part, exact halves, 4999.. below halves, negatives) under 0, 0.0..0.000000, #,##0, #,##0.0.., 0%, "
                 "0.0%..; plus distinct General items (numbers; arbitrary, decimal-looking and exponent-form text) and "
                 "distinct (built-in id, finite f64) pairs incl. random bit patterns and calendar boundaries")
-    seen = set()
-    for evs in events:                      # one compact sample per kind of event, plus one per finding class
+    wanted = [("fmt", "s", "1234567.891", "fmt", "#,##0.00"), ("fmt", "s", "-1234.5", "fmt", "0.0"),
+              ("fmt", "s", "1.5", "fmt", "0"), ("fmt", "s", "1.005", "fmt", "0.00"), ("fmt", "s", "0.285", "fmt", "0%"),
+              ("general", "text", "007", "kind", "text"), ("general", "text", "abc", "kind", "text"),
+              ("builtin", "s", "100000000", "fid", 14)]
+    keep = ("s", "fmt", "kind", "text", "fid", "code", "out", "outws", "outcell", "outcome")
+    for evs in events:                      # a few recorded items verbatim (correct ones and known-deviant ones)
         e = evs[0]
-        for it in e.get("items", [])[:40]:
-            key = (e["a"], it.get("fmt", it.get("kind", it.get("fid"))))
-            if e["a"] in seen and key in seen:
-                continue
-            if len(seen) >= 12:
-                break
-            seen.add(e["a"])
-            seen.add(key)
-            keep = ("s", "fmt", "kind", "text", "fid", "code", "out", "outws", "outcell", "outcome")
-            chk.sample({"event": e["a"], "item": {k: it[k] for k in keep if k in it}}, limit=8)
+        for it in e.get("items", []):
+            for w in list(wanted):
+                if e["a"] == w[0] and it.get(w[1]) == w[2] and it.get(w[3]) == w[4]:
+                    wanted.remove(w)
+                    chk.sample({"event": e["a"], "item": {k: it[k] for k in keep if k in it}}, limit=8)
     chk.assumptions += [
         "Rust's f64 Display prints the shortest decimal string that round-trips (the driver checks s == "
         "parse(s).to_string() for every number; the trace specification requires that flag)",
